@@ -465,13 +465,17 @@ class Queue(Greenlet):
         for i, entry in enumerate(self.queued):
             timestamp, entry_id = entry
             if now >= timestamp:
-                self._pool_spawn('store', self._dequeue, entry_id)
                 last_i = i+1
             else:
                 break
         if last_i > 0:
+            # Cut the ready entries out before spawning: a bounded pool may
+            # block in spawn() while other greenlets insert new entries.
+            ready = self.queued[:last_i]
             self.queued = self.queued[last_i:]
             self.queued_ids = set([id for _, id in self.queued])
+            for timestamp, entry_id in ready:
+                self._pool_spawn('store', self._dequeue, entry_id)
 
     def _wait_store(self):
         while True:
@@ -506,10 +510,11 @@ class Queue(Greenlet):
         self.wake.clear()
         self.queued_lock.acquire()
         try:
-            for entry in self.queued:
-                self._pool_spawn('store', self._dequeue, entry[1])
+            flushed = self.queued
             self.queued = []
             self.queued_ids = set()
+            for entry in flushed:
+                self._pool_spawn('store', self._dequeue, entry[1])
         finally:
             self.queued_lock.release()
 
